@@ -222,7 +222,8 @@ def falsify_mps_truncate(rnd, gen, budget):
             ref = dense(fs2)
         elif variant == "sum":
             a = make_mps(MPS, fs, dim, precision, cap, n - 1)
-            b = make_mps(MPS, fs, dim, precision, cap, n - 1)
+            # the sum is truncated with the LEFT operand's settings, whatever the right one carries
+            b = make_mps(MPS, fs, dim, precision * rnd.choice([1, 30]), cap + rnd.choice([0, 7]), n - 1)
             try:
                 st = 0.5 * a + 0.5 * b
             except Exception as e:
@@ -312,13 +313,20 @@ def falsify_scaling(rnd, gen, budget):
     for label, psi, fs, n, dim, precision, cap in cases(rnd, gen, budget):
         st = make_mps(MPS, fs, dim, precision, 64, n - 1)
         st.truncate()
+        st.orthogonalize(rnd.randrange(n))          # the centre may be anywhere when the state is scaled
         ref = dense(st.factors)
         c = rnd.choice([0.5, 3.0, 25.0, complex(0, 2.0)])
         big = c * st
+        if big.orthogonality_center != st.orthogonality_center:
+            return (f"{c} * psi: declared centre {big.orthogonality_center}, the operand's is "
+                    f"{st.orthogonality_center} [{label}]")
         if big.orthogonality_center is not None:
             pr = canonical_problems(big.factors, big.orthogonality_center)
             if pr:
                 return f"{c} * psi: {pr[0]} [{label}]"
+            nd, nt = float(big.norm()), torch.linalg.norm(c * ref).item()
+            if abs(nd - nt) > 1e-9 * max(1.0, nt):
+                return f"{c} * psi: norm() = {nd:.12g} but sqrt(<psi|psi>) = {nt:.12g} [{label}]"
         if torch.linalg.norm(dense(big.factors) - c * ref).item() > 1e-9 * max(1.0, abs(c) * torch.linalg.norm(ref).item()):
             return f"{c} * psi: state is not the scaled state [{label}]"
         tot = big + big
